@@ -127,6 +127,8 @@ impl<'a, Key, Freq> FrequencyCounterBasedMinHeapSamples<'a, Key, Freq>
     /// Rust's `BinaryHeap` does not provide a `contains` method, so we use a `HashSet` to determine the key_ids that are a part of the current sample.
     pub(crate) fn maybe_fill_in(&mut self) -> bool {
         let mut filled_in: bool = false;
+        #[cfg(cached_verif)]
+        let _verif_lock = crate::cache::verif::lock_scope("KeyWeightsShard");
         let mut iterator = self.source.iter();
         #[cfg(cached_verif)]
         let mut verif_order: Vec<u64> = Vec::new();
@@ -167,6 +169,8 @@ impl<'a, Key, Freq> FrequencyCounterBasedMinHeapSamples<'a, Key, Freq>
         let mut current_sample_key_ids = HashSet::new();
         #[cfg(cached_verif)]
         let mut verif_order: Vec<u64> = Vec::new();
+        #[cfg(cached_verif)]
+        let _verif_lock = crate::cache::verif::lock_scope("KeyWeightsShard");
 
         for pair in source.iter().by_ref() {
             #[cfg(cached_verif)]
@@ -215,16 +219,26 @@ impl<Key> CacheWeight<Key>
     }
 
     pub(crate) fn get_weight_used(&self) -> Weight {
+        #[cfg(cached_verif)]
+        let _verif_lock = crate::cache::verif::lock_scope("WeightUsed");
         *self.weight_used.read()
     }
 
     pub(crate) fn is_space_available_for(&self, weight: Weight) -> (Weight, bool) {
+        #[cfg(cached_verif)]
+        let _verif_lock = crate::cache::verif::lock_scope("WeightUsed");
         let available = self.max_weight - (*self.weight_used.read());
         (available, available >= weight)
     }
 
     pub(crate) fn add(&self, key_description: &KeyDescription<Key>) {
+        #[cfg(cached_verif)]
+        crate::cache::verif::lock_acquire("KeyWeightsShard");
         self.key_weights.insert(key_description.id, WeightedKey::new(key_description.clone_key(), key_description.hash, key_description.weight));
+        #[cfg(cached_verif)]
+        crate::cache::verif::lock_release("KeyWeightsShard");
+        #[cfg(cached_verif)]
+        let _verif_lock = crate::cache::verif::lock_scope("WeightUsed");
         let mut guard = self.weight_used.write();
         *guard += key_description.weight;
 
@@ -232,8 +246,12 @@ impl<Key> CacheWeight<Key>
     }
 
     pub(crate) fn update(&self, key_id: &KeyId, weight: Weight) -> bool {
+        #[cfg(cached_verif)]
+        let _verif_lock = crate::cache::verif::lock_scope("KeyWeightsShard");
         if let Some(mut existing) = self.key_weights.get_mut(key_id) {
             {
+                #[cfg(cached_verif)]
+                let _verif_lock_used = crate::cache::verif::lock_scope("WeightUsed");
                 let mut guard = self.weight_used.write();
                 *guard += weight - existing.weight;
             }
@@ -251,7 +269,13 @@ impl<Key> CacheWeight<Key>
 
     pub(crate) fn delete<DeleteHook>(&self, key_id: &KeyId, delete_hook: &DeleteHook)
         where DeleteHook: Fn(Key) {
+        #[cfg(cached_verif)]
+        let _verif_lock = crate::cache::verif::lock_scope("KeyWeightsShard");
         if let Some(weight_by_key_hash) = self.key_weights.remove(key_id) {
+            #[cfg(cached_verif)]
+            drop(_verif_lock);
+            #[cfg(cached_verif)]
+            let _verif_lock_used = crate::cache::verif::lock_scope("WeightUsed");
             let mut guard = self.weight_used.write();
             *guard -= weight_by_key_hash.1.weight;
             delete_hook(weight_by_key_hash.1.key);
@@ -261,10 +285,14 @@ impl<Key> CacheWeight<Key>
     }
 
     pub(crate) fn contains(&self, key_id: &KeyId) -> bool {
+        #[cfg(cached_verif)]
+        let _verif_lock = crate::cache::verif::lock_scope("KeyWeightsShard");
         self.key_weights.contains_key(key_id)
     }
 
     pub(crate) fn weight_of(&self, key_id: &KeyId) -> Option<Weight> {
+        #[cfg(cached_verif)]
+        let _verif_lock = crate::cache::verif::lock_scope("KeyWeightsShard");
         self.key_weights.get(key_id).map(|pair| pair.weight)
     }
 
@@ -275,7 +303,13 @@ impl<Key> CacheWeight<Key>
     }
 
     pub(crate) fn clear(&self) {
+        #[cfg(cached_verif)]
+        crate::cache::verif::lock_acquire("KeyWeightsShard");
         self.key_weights.clear();
+        #[cfg(cached_verif)]
+        crate::cache::verif::lock_release("KeyWeightsShard");
+        #[cfg(cached_verif)]
+        let _verif_lock = crate::cache::verif::lock_scope("WeightUsed");
         let mut guard = self.weight_used.write();
         *guard = 0;
     }
